@@ -88,7 +88,14 @@ def run_buffer(stream: str, cuts: Sequence[int], thr: int, real_map=to_real, pie
                 raise Watchdog("more callbacks than characters: process() does not terminate")
         raised = ""
         try:
-            buf.append(real_map(piece))
+            # every other call the piece arrives as two appends before the one process() call (a reader that drains what is
+            # available): "the processing call that follows arrival of its last character" is then this call all the same
+            if len(ev) % 2 == 1 and len(piece) >= 2:
+                k = 1 + (fed % (len(piece) - 1))
+                buf.append(real_map(piece[:k]))
+                buf.append(real_map(piece[k:]))
+            else:
+                buf.append(real_map(piece))
             with bounded(30, f"Buffer.process on {len(stream)} characters"):
                 buf.process(cb)
         except (Watchdog, Stalled) as e:
